@@ -13,6 +13,13 @@ use crate::tour::Tour;
 use crate::Schedule;
 
 static RECORDER: Mutex<Option<Vec<String>>> = Mutex::new(None);
+// clones of the recorded stage schedules (so that a harness can re-run a stage on its own result)
+static STAGE_SCHEDULES: Mutex<Vec<(String, Schedule)>> = Mutex::new(Vec::new());
+
+/// Take the schedules recorded by `record_stage` since the last call.
+pub fn take_stage_schedules() -> Vec<(String, Schedule)> {
+    std::mem::take(&mut *STAGE_SCHEDULES.lock().unwrap_or_else(|e| e.into_inner()))
+}
 
 /// Switch the recorder on (clears previously recorded events).
 pub fn enable() {
@@ -52,6 +59,12 @@ pub fn record_stage(label: &str, schedule: &Schedule) {
         return;
     }
     record_event(json!({"ev": "stage", "label": label, "S": project(schedule)}));
+    if label != "ls_step" {
+        STAGE_SCHEDULES
+            .lock()
+            .unwrap_or_else(|e| e.into_inner())
+            .push((label.to_string(), schedule.clone()));
+    }
 }
 
 fn project_tour(schedule: &Schedule, id: VehicleIdx, tour: &Tour) -> Value {
